@@ -60,7 +60,9 @@ def _case(draw):
         return {"kind": "nosol", "how": how, "instrs": m["instrs"], "solver": draw(st.sampled_from(["CLARABEL", "SCS"])),
                 "c": draw(st.sampled_from([1, 0.5, 3.0])), "pi": draw(st.integers(0, 20)),
                 "verbose": draw(st.sampled_from([0, 1])),
-                "ret": draw(st.sampled_from(["dual", "primal"]))}
+                "ret": draw(st.sampled_from(["dual", "primal"])),
+                # the same problem object is first solved successfully, then made infeasible and solved again
+                "prior_solve": how != "unbounded" and draw(st.booleans())}
     m = draw(gen.model(max_steps=1, allow_extras=False))
     which = draw(st.sampled_from(["ret", "drh"]))
     val = draw(st.sampled_from(INVALID_RET if which == "ret" else INVALID_DRH))
@@ -261,7 +263,29 @@ def check_nosol(case, ctx):
         ne = len(env_probe.E)
         instrs += [["new_expr"], ["cons", "pep", ne, "<=", -case["c"], None], ["cons", "pep", ne, ">=", case["c"], None]]
         tag = "infeasible"
-    env = prog.run_program(instrs)
+    first_sent = []
+    if case.get("prior_solve") and how != "unbounded":
+        n0 = len(case["instrs"])
+        it = prog.Interp()
+        it.run(instrs[:n0])
+        env = it.env
+        try:
+            first = solve(env, verbose=0, solver="CLARABEL")
+        except Exception as exc:  # noqa
+            if type(exc).__name__ == "SolverError":
+                ctx.label("nosol:solver-error(inconclusive)")
+                return
+            raise
+        if first is None:
+            ctx.label("nosol:prior-solve-none")
+            return
+        first_sent = list(env.pep._list_of_constraints_sent_to_wrapper) + list(env.pep._list_of_psd_sent_to_wrapper)
+        with prog.quiet():
+            it.run(instrs[n0:])
+        ctx.label("nosol:prior-solve")
+        tag = "infeasible-after-a-successful-solve"
+    else:
+        env = prog.run_program(instrs)
     try:
         res = solve(env, **kw)
     except Exception as exc:  # noqa
@@ -280,6 +304,17 @@ def check_nosol(case, ctx):
         ctx.fail("number-on-%s-model" % tag, "solve returned %r on a witnessed %s model (solver %s, status %s)"
                  % (res, tag, case["solver"], status))
         return
+    # nothing that took part in the earlier successful solve keeps a multiplier (scalar constraints, PEP-level, function-level
+    # and class LMIs alike)
+    for obj in first_sent:
+        kind = "lmi" if type(obj).__name__ == "PSDMatrix" else "cons"
+        _expect_must_be_solved(ctx, obj, kind, "eval_dual", "after_none_following_a_solve")
+        unsolved, nl = has_unsolved_leaf(obj, kind)
+        if nl and not unsolved:
+            ctx.fail("leaf-has-value-after-none", "a leaf of a model whose latest solve returned None carries a value")
+            break
+        if nl:
+            _expect_must_be_solved(ctx, obj, kind, "eval", "after_none_following_a_solve")
     # objects of that model have no value
     for what, kind_acc in (("derp", "eval"), ("exprc", "eval"), ("leafp", "eval"), ("pool_c", "eval"),
                            ("pool_c", "eval_dual")):
